@@ -16,7 +16,16 @@ for prop, names in MAP.items():
     out = ['import O2P.Gen.Facts', f'/-! Reviewed expectations about the source facts that the model parts used for {prop} encode.',
            '    Written by bin/mkexpect.py from reviewed facts; a change of /repo that alters one of these facts breaks the `rfl`. -/',
            'namespace O2P.Expect.' + prop, 'open O2P.Facts', '']
+    expanded = []
     for n in names:
+        if n.endswith('*'):   # a family of facts (one per source file), e.g. providerReach_*
+            fam = sorted(k for k in defs if k.startswith(n[:-1]))
+            if not fam:
+                print('missing fact family', n); sys.exit(1)
+            expanded += fam
+        else:
+            expanded.append(n)
+    for n in expanded:
         if n not in defs:
             print('missing fact', n); sys.exit(1)
         ty, val = defs[n]
